@@ -87,6 +87,8 @@ def _locate_slice_strict(values, start, stop, step, issorted=False):
     # include last element
     if stop is not None:
         istop += -1+2*(step is None or step>0)
+        if istop < 0:
+            istop = None # negative step down to (and including) the first element
     return istart, istop
 
 def locate_slice(values, start, stop, step, issorted=False):
@@ -139,6 +141,8 @@ def locate_slice(values, start, stop, step, issorted=False):
 
         if step is not None and step < 0:
             istart -= 1
+            if istart < 0:
+                return 0, 0 # start lies before the first label in walking direction: empty selection
     else:
         istart = None
 
